@@ -58,6 +58,12 @@ func (e *fnEnc) runTop() {
 		e.fail("no body")
 	}
 	e.analyseCFG()
+	if c := e.contract; c != nil && c.Snaps == nil {
+		c.collectSnaps()
+		if c.Snaps == nil {
+			c.Snaps = map[string][]SExpr{}
+		}
+	}
 	if c := e.contract; c != nil {
 		// a loop clause that names no loop of the function would silently check nothing
 		for _, set := range [][]*Clause{c.Invs, c.Decs, c.Assumes, c.Steps, c.Exits} {
@@ -924,7 +930,10 @@ func (e *fnEnc) earlyExitObligations(b *ssa.BasicBlock, preds []*ssa.BasicBlock,
 			continue
 		}
 		for i, p := range preds {
-			if !li.body[p] || p == li.head {
+			// leaving from the head is the loop's normal end (its condition turned false) - except for a `for { }`
+			// loop, which has no condition: go/ssa makes its first body block the head, and leaving from there is a
+			// break like any other
+			if !li.body[p] || (p == li.head && li.head.Comment != "for.body") {
 				continue
 			}
 			for k, cl := range e.contract.Exits {
